@@ -20,11 +20,17 @@ PROVED = ['lcm_den_multiplier / lcm_den_least / lcm_den_invariant [P]: the lcm o
           'order_canonical [P]: n x n bases b1, b2 with b2 = U b1, b1 = V b2 (U, V integer matrices: same Z-module) have the same from_basis outcome (unconditional: uses the C02 canonicity theorem)',
           'hnf_reduce_idempotent [P]', 'index_self [P]', 'index_chain [P]: (A:C) = (A:B)(B:C)', 'index_spec [P]: B = S A, A non-singular => index A B = det S',
           'disc_index [P]: disc B = (A:B)^2 disc A, incl. the integrality assertion',
-          'union_spec [P]: a returned union contains both arguments and is contained in their sum', 'union_comm [P]', 'union_absorbs [P]', 'union_self [P]']
-NOT_PROVED = ['positivity of the index / index = |det| for stored bases (needs det of a lower-triangular stored basis > 0; oracle: index = |det S| > 0 on every case)',
-              'singly_gen_disc: power-basis order of a monic theta has discriminant disc f (oracle on every equation order)',
+          'union_spec [P]: a returned union contains both arguments and is contained in their sum', 'union_comm [P]', 'union_absorbs [P]', 'union_self [P]',
+          'index_abs_det / index_abs_det_list [P]: for stored bases a, b (outputs of hnf_reduce/from_basis on n x n bases) with b = S a, S an integer matrix (MathComp matrix or list matrix '
+          'through qmmul): index a b returns det S and det S > 0, i.e. the index is |det S| and positive',
+          'stored_basis_det_pos [P]: a stored basis is square and l^n * det = p for integers l, p > 0 (it is a square normal form divided by the positive lcm of denominators)',
+          'hnf_reduce_det [P]: det(stored basis) = s * det(given basis) with s = +-1',
+          'from_basis_returns_iff [P]: on an n x n basis from_basis returns a stored basis iff \\det <> 0 (total on full-rank input, panics on singular input)',
+          'singly_gen_disc [P]: monic f of degree n >= 2, theta = Algebraic::new(f): the rows built by singly_gen are the unit vectors, the stored basis has determinant 1, and whenever '
+          'discriminant_with_min_poly returns d, d = disc(min_poly) (the input discf); singly_gen_disc_returns [P]: it returns discf when 2n < 2^64 (usize arithmetic)']
+NOT_PROVED = ['singly_gen_disc for a monic LINEAR f (degree 1, theta a rational constant) and for non-monic f (not a claim of the property); proved for monic f of degree >= 2',
               'constructors singly_gen / trivial_order_monic / non_monic_initial_order generate the intended modules (oracle: canonical form + same module on every case)',
-              'totality of from_basis / union on full-rank input (partial correctness: statements carry "= Done r" or equate outcomes)',
+              'totality of union on full-rank input (partial correctness: statements carry "= Done r" or equate outcomes); from_basis is total exactly on non-singular bases (from_basis_returns_iff)',
               'the discriminant is an integer whenever the module is an order (needs integrality of the trace form; the code asserts it)',
               'disc(min_poly) itself: input of the model (see assumptions)']
 ASSUMPTIONS = ['the discriminant of the minimal polynomial (discriminant::discriminant, via resultant) is not modelled here: order_discriminant takes '
@@ -36,12 +42,12 @@ ASSUMPTIONS = ['the discriminant of the minimal polynomial (discriminant::discri
 CLAIM = dict(
     technique='Coq proof about the Gallina model of Order (hnf_reduce, index, union, discriminant, constructors) + extracted-model-vs-implementation correspondence',
     text='Theorems in coq/Props/C15.v hold for all n x n rational bases, n >= 1, no size bound: bases of the same Z-module are stored identically (same outcome of '
-         'from_basis), the stored form is a fixed point, index is multiplicative in chains and equals the determinant of the change of basis, disc B = (A:B)^2 disc A, '
+         'from_basis), the stored form is a fixed point, index is multiplicative in chains and equals the determinant of the change of basis, which is positive for stored bases (index = |det S| > 0), disc B = (A:B)^2 disc A, '
          'union returns a basis of the smallest module containing both arguments, is commutative, idempotent and absorbs sub-modules. The model (coq/Model/Order.v on top '
          'of Hnf.v and LinAlg.v) reproduces the routines statement by statement including assertions, the explicit panic of index, bounds checks on rank-deficient input '
          'and the usize arithmetic of the discriminant; it is tied to /repo by running the extracted model and impl_svc on the same constructor paths.',
-    note='disc(min_poly) is an input of the model (see assumptions). Statements are partial-correctness statements or equalities of outcomes; positivity of the index, '
-         'the power-basis discriminant and the modules generated by the constructors are checked by independent Fraction oracles on every explored input.',
+    note='disc(min_poly) is an input of the model (see assumptions). Statements are partial-correctness statements or equalities of outcomes; the power-basis discriminant is proved for monic f of degree >= 2 (singly_gen_disc); '
+         'the modules generated by the other constructors are checked by independent Fraction oracles on every explored input.',
     ref='DESIGN.md section 4, C15')
 
 def fr(l): return [F(x) for x in l]
